@@ -273,6 +273,90 @@ def einsumR (eq : EinEq) (x y : Tensor α) : Except PyErr (Tensor α) :=
         x.at (opIdx eq.a x.shape env) * y.at (opIdx eq.b y.shape env)))))
   else .error .RuntimeError
 
+/-! ### the equation string: implicit output and the ellipsis (what `torch.einsum` does before contracting)
+
+`cplx.einsum` hands `equation` to `torch.einsum` unchanged, so every form torch accepts is accepted: `"ij,jk"` (no `->`: the
+output is made of the labels that occur exactly once, sorted) and `"...j,jk->...k"` (`...` stands for the axes of an operand
+not covered by its named subscripts; the ellipsis axes of the operands are aligned FROM THE RIGHT and broadcast; in
+implicit mode they come first in the output; left out of an explicit output they are summed).  The string is cut into
+tokens by the harness (labels = character codes, `...` = `Tok.ell`, spaces dropped); everything after that is modelled:
+`elabEq` turns a raw equation plus the operand ranks into an explicit `EinEq`, giving the ellipsis axes fresh labels. -/
+
+/-- a subscript: a named label or the ellipsis `...` -/
+inductive Tok where
+  | lab (l : Nat)
+  | ell
+  deriving Repr, DecidableEq
+
+/-- a tokenised equation: the two operand subscripts and the output subscripts when `->` is present -/
+structure RawEq where
+  a : List Tok
+  b : List Tok
+  out : Option (List Tok)
+  deriving Repr
+
+/-- the named labels of a subscript list, in order -/
+def Tok.labels : List Tok → List Nat
+  | [] => []
+  | .lab l :: ts => l :: Tok.labels ts
+  | .ell :: ts => Tok.labels ts
+
+/-- number of `...` in a subscript list -/
+def Tok.ellCount : List Tok → Nat
+  | [] => 0
+  | .lab _ :: ts => Tok.ellCount ts
+  | .ell :: ts => Tok.ellCount ts + 1
+
+/-- the number of axes the ellipsis of an operand of rank `r` covers (0 when there is none); `none` when torch rejects the
+operand: without ellipsis the number of subscripts must equal the rank, with one ellipsis it must not exceed it, a second
+ellipsis is an error -/
+def ellCover (ts : List Tok) (r : Nat) : Option Nat :=
+  let n := (Tok.labels ts).length
+  match Tok.ellCount ts with
+  | 0 => if n = r then some 0 else none
+  | 1 => if n ≤ r then some (r - n) else none
+  | _ => none
+
+/-- the labels given to the ellipsis axes: the equation has `K` of them, `base, …, base+K-1`; an ellipsis that covers
+`k ≤ K` axes gets the LAST `k` (alignment from the right) -/
+def ellLabels (base K k : Nat) : List Nat := (List.range k).map (fun i => base + (K - k) + i)
+
+/-- subscripts with the ellipsis (covering `k` axes) replaced by its labels -/
+def expandSub (base K k : Nat) : List Tok → List Nat
+  | [] => []
+  | .lab l :: ts => l :: expandSub base K k ts
+  | .ell :: ts => ellLabels base K k ++ expandSub base K k ts
+
+/-- insertion into a sorted list -/
+def insertSorted (x : Nat) : List Nat → List Nat
+  | [] => [x]
+  | y :: ys => if x ≤ y then x :: y :: ys else y :: insertSorted x ys
+
+/-- insertion sort -/
+def sortNat (l : List Nat) : List Nat := l.foldr insertSorted []
+
+/-- implicit output: the labels that occur exactly once in the operands, in increasing order (torch orders `A-Z` before
+`a-z`, as the character codes do) -/
+def onceLabels (l : List Nat) : List Nat := sortNat (l.filter (fun x => l.count x == 1))
+
+/-- `torch.einsum`'s treatment of the equation for operands of tensor shapes `sa`, `sb`: an explicit `EinEq` whose ellipsis
+axes carry labels larger than every named label, or `RuntimeError` -/
+def elabEq (raw : RawEq) (sa sb : List Nat) : Except PyErr EinEq :=
+  match ellCover raw.a sa.length, ellCover raw.b sb.length with
+  | some ka, some kb =>
+    let K := max ka kb
+    let named := Tok.labels raw.a ++ Tok.labels raw.b
+    let base := (named ++ (match raw.out with | some o => Tok.labels o | none => [])).foldl max 0 + 1
+    let a := expandSub base K ka raw.a
+    let b := expandSub base K kb raw.b
+    match raw.out with
+    | none => .ok ⟨a, b, ellLabels base K K ++ onceLabels named⟩
+    | some o => if Tok.ellCount o ≤ 1 then .ok ⟨a, b, expandSub base K K o⟩ else .error .RuntimeError
+  | _, _ => .error .RuntimeError
+
+/-- an equation no pair of operands satisfies (unknown output label): stands for a string torch rejects -/
+def badEq : EinEq := ⟨[], [], [0]⟩
+
 /-! ### products (cplx.py:83-224, 298-317) -/
 
 /-- tensor part of `scalar_mult(x, y)` (cplx.py:98-107):
@@ -465,6 +549,15 @@ def einsum (eq : EinEq) (a b : Tensor α) (realPart imagPart : Bool) : Except Py
     let i ← einsumIm eq a b
     pure (.re i)
   | false, false => pure .none
+
+/-- `einsum(equation, a, b, real_part, imag_part)` for a tokenised equation string: the equation is elaborated against the
+tensor shapes of the operands (the shape of `real(a)` / `imag(a)`: `a.shape` without the complex axis); a string torch
+rejects behaves like `badEq`, i.e. `RuntimeError` at the first `torch.einsum` call and nothing at all when no part is
+requested -/
+def einsumS (raw : RawEq) (a b : Tensor α) (realPart imagPart : Bool) : Except PyErr (EinRes α) :=
+  match elabEq raw (a.shape.drop 1) (b.shape.drop 1) with
+  | .ok eq => einsum eq a b realPart imagPart
+  | .error _ => einsum badEq a b realPart imagPart
 
 /-- `conj(x)` (cplx.py:248-257) -/
 def conj (x : Tensor α) : Except PyErr (Tensor α) := do
